@@ -151,6 +151,29 @@ func isRangeIndex(v ssa.Value) bool {
 	return hasInit && hasStep
 }
 
+// isCountingIndex recognises the variable of a classic `for i := 0; …; i++` loop.
+func isCountingIndex(v ssa.Value) bool {
+	phi, ok := v.(*ssa.Phi)
+	if !ok || len(phi.Edges) != 2 {
+		return false
+	}
+	hasInit, hasStep := false, false
+	for _, e := range phi.Edges {
+		if c, ok := eng.ConstInt(e); ok && c == 0 {
+			hasInit = true
+			continue
+		}
+		if bo, ok := e.(*ssa.BinOp); ok && bo.Op == token.ADD && bo.X == phi {
+			if c, ok := eng.ConstInt(bo.Y); ok && c == 1 {
+				hasStep = true
+				continue
+			}
+		}
+		return false
+	}
+	return hasInit && hasStep
+}
+
 // leaves collects the leaf values (parameters, constants, field loads, calls
 // without operands to follow, globals…) a value is computed from, walking
 // through pure operators and – when throughCalls – call arguments.
